@@ -29,7 +29,7 @@ NAMES = ["Alpha", "Bravo", "Carol", "Delta", "Echo", "Fox"]
 KINDS = ["struct", "gstruct", "unit", "tagged", "gtagged", "alias", "galias"]
 SKELETON_KINDS = ["struct", "gstruct", "unit", "tagged", "alias"]
 GENERIC = {"gstruct", "gtagged", "galias"}
-PREFIXES = ["", "OP", "Core_"]
+PREFIXES = ["", "OP", "Core_", "Al", "Alpha", "E", "T", "Fo"]   # incl. prefixes that are leading parts of / equal to item and parameter names
 
 
 def new_name(name):
